@@ -63,6 +63,14 @@ class Ctx:
     def build_harness(self, race=False):
         out = os.path.join(self.work, "h-race" if race else "h")
         hdir = os.path.join(ROOT, "harness")
+        if REPO != "/repo":
+            # a scratch copy of the repository (tools/selftest_parallel.py): build a private copy of the harness module against it
+            hsrc = os.path.join(self.work, "harness_src")
+            if not os.path.isdir(hsrc):
+                shutil.copytree(hdir, hsrc, ignore=shutil.ignore_patterns("go.sum"))
+                gm = open(os.path.join(hsrc, "go.mod")).read().replace("=> /repo", "=> " + REPO)
+                open(os.path.join(hsrc, "go.mod"), "w").write(gm)
+            hdir = hsrc
         shutil.copy(os.path.join(REPO, "go.sum"), os.path.join(hdir, "go.sum"))
         cmd = ["go", "build", "-tags", "verif"] + (["-race"] if race else []) + ["-o", out, "."]
         r = subprocess.run(cmd, cwd=hdir, env=GOENV, capture_output=True, text=True)
